@@ -19,8 +19,8 @@ enum { A_CREATE, A_ENCODE, A_DECODE, A_DECODE_EXPLICIT, A_LOAD, A_CRYPT, A_KEYGE
 static const char* const API_NAME[] = { "polyseed_create", "polyseed_encode", "polyseed_decode", "polyseed_decode_explicit", "polyseed_load",
                                         "polyseed_crypt", "polyseed_keygen", "polyseed_store", "polyseed_free", "getters" };
 /* paths */
-enum { P_OK, P_NUM_WORDS, P_LANG, P_MULT_LANG, P_CHECKSUM, P_MEMORY, P_UNSUPPORTED, P_FORMAT, P_LONG, P_NPATH };
-static const char* const PATH_NAME[] = { "OK", "NUM_WORDS", "LANG", "MULT_LANG", "CHECKSUM", "MEMORY", "UNSUPPORTED", "FORMAT", "OVERLONG" };
+enum { P_OK, P_NUM_WORDS, P_LANG, P_MULT_LANG, P_CHECKSUM, P_MEMORY, P_UNSUPPORTED, P_FORMAT, P_LONG, P_BADUTF, P_NPATH };
+static const char* const PATH_NAME[] = { "OK", "NUM_WORDS", "LANG", "MULT_LANG", "CHECKSUM", "MEMORY", "UNSUPPORTED", "FORMAT", "OVERLONG", "INVALID-UTF8(normaliser answers with an empty string)" };
 
 typedef struct job {
     int api, path, lang;
@@ -28,7 +28,7 @@ typedef struct job {
     polyseed_data* seed; unsigned coin; unsigned features;
     char* str; uint8_t* buf32; char* out_str; uint8_t* key; size_t keylen;
     const polyseed_lang* liblang;
-    bool arm_fail;
+    bool arm_fail, bad_utf;
     /* outputs */
     int status; polyseed_data* seed_out; const polyseed_lang* lang_out; size_t ret;
     /* trampoline */
@@ -37,6 +37,8 @@ typedef struct job {
 
 static void job_run(job* j) {
     if (j->arm_fail) pv_w->fail_countdown = 1;
+    /* evidence must survive the monitors: here the normalisers write their result and nothing else */
+    pv_w->norm_gentle = 1; pv_w->norm_invalid_empty = j->bad_utf;
     switch (j->api) {
     case A_CREATE: j->status = pv_api_create(j->features, &j->seed_out); break;
     case A_ENCODE: j->ret = pv_api_encode(j->seed, j->liblang, j->coin, j->out_str); break;
@@ -49,7 +51,7 @@ static void job_run(job* j) {
     case A_FREE: pv_api_free(j->seed); j->seed = NULL; break;
     case A_GETTERS: j->ret = pv_api_get_birthday(j->seed) + pv_api_get_feature(j->seed, 7) + (unsigned)pv_api_is_encrypted(j->seed); break;
     }
-    pv_w->fail_countdown = 0;
+    pv_w->fail_countdown = 0; pv_w->norm_gentle = 0; pv_w->norm_invalid_empty = 0;
 }
 static void* trampoline(void* p) {
     job* j = p;
@@ -319,7 +321,12 @@ static bool build(const shape* sh, pv_rng* r, job* j, nset* S) {
             while (n < want && n < sizeof ph - 4) { if (kind == 0) ph[n++] = ' '; else if (kind == 1) { ph[n++] = ' '; ph[n++] = 'x'; } else { ph[n++] = ' '; ph[n++] = (char)0xc3; ph[n++] = (char)0xa9; } }
             ph[n] = 0;
         }
-        char* in = (L->compose && pv_randn(r, 2)) ? pv_nfc_alloc(ph) : pv_exact_str(ph);
+        if (sh->path == P_BADUTF) {        /* a valid phrase with one stray Latin-1 byte behind it: a normaliser built on a strict converter answers with an empty string,
+                                             * and whatever the library had copied before asking it (the ASCII part of the phrase, say) must be gone afterwards as well */
+            size_t n = strlen(ph); static const uint8_t STRAY[] = { 0xE9, 0xA0, 0xFF, 0xC3 }; ph[n] = (char)STRAY[pv_randn(r, 4)]; ph[n + 1] = 0;
+            j->bad_utf = true;
+        }
+        char* in = (L->compose && pv_randn(r, 2) && sh->path != P_BADUTF) ? pv_nfc_alloc(ph) : pv_exact_str(ph);
         j->str = pv_exact_str(in); free(in);
         char nfk[4096]; join_tokens(nfk, L, d, " ", ntok, bad);
         add_phrase(S, nfk);
@@ -342,7 +349,7 @@ static void dispose(job* j) {
 }
 static int expected_status(const shape* sh) {
     static const int st[P_NPATH] = { POLYSEED_OK, POLYSEED_ERR_NUM_WORDS, POLYSEED_ERR_LANG, POLYSEED_ERR_MULT_LANG, POLYSEED_ERR_CHECKSUM,
-                                     POLYSEED_ERR_MEMORY, POLYSEED_ERR_UNSUPPORTED, POLYSEED_ERR_FORMAT, POLYSEED_ERR_NUM_WORDS };
+                                     POLYSEED_ERR_MEMORY, POLYSEED_ERR_UNSUPPORTED, POLYSEED_ERR_FORMAT, POLYSEED_ERR_NUM_WORDS, POLYSEED_ERR_NUM_WORDS };
     return st[sh->path];
 }
 static bool has_status(int api) { return api == A_CREATE || api == A_DECODE || api == A_DECODE_EXPLICIT || api == A_LOAD; }
@@ -350,7 +357,7 @@ static bool has_status(int api) { return api == A_CREATE || api == A_DECODE || a
 /* the list of shapes: every API x every exit path it has x languages (where a language is involved) */
 static shape g_shapes[512]; static int g_nshapes;
 static void make_shapes(void) {
-    static const int dec_paths[] = { P_OK, P_NUM_WORDS, P_LANG, P_MULT_LANG, P_CHECKSUM, P_MEMORY, P_UNSUPPORTED, P_LONG };
+    static const int dec_paths[] = { P_OK, P_NUM_WORDS, P_LANG, P_MULT_LANG, P_CHECKSUM, P_MEMORY, P_UNSUPPORTED, P_LONG, P_BADUTF };
     static const int load_paths[] = { P_OK, P_FORMAT, P_CHECKSUM, P_UNSUPPORTED, P_MEMORY };
     static const int create_paths[] = { P_OK, P_UNSUPPORTED, P_MEMORY };
     for (int l = 0; l < pv_nlangs; ++l) {
